@@ -89,17 +89,49 @@ pub struct Run {
     pub tr: Trace,
     pub world: Option<Box<dyn World>>,
     pub ops: u64,
+    /// automatic ledger ticks between generated operations (None when replaying: ticks are then explicit lines)
+    pub ticker: Option<Rng>,
+    tick_left: u32,
+    tick_world: bool,
 }
 impl Run {
     pub fn new() -> Self {
-        Run { tr: Trace::new(), world: None, ops: 0 }
+        Run { tr: Trace::new(), world: None, ops: 0, ticker: None, tick_left: 0, tick_world: false }
     }
     pub fn scenario(&mut self, cluster: &str, name: &str) {
         self.tr.lines.push(format!("scenario {cluster} {name}"));
         self.world = Some(new_world(cluster));
+        // the token worlds drive the ledger sequence themselves (allowance expiry); the codec world has no ledger.
+        self.tick_world = matches!(cluster, "gw" | "gs" | "op" | "up" | "ex" | "its");
+        // all ticks of one scenario together stay well below the shortest lifetime of a persistent or instance
+        // entry in the test host (4096 ledgers), and far above that of a temporary entry (16)
+        self.tick_left = 3000;
+    }
+    fn auto_tick(&mut self, op: &str) {
+        if !self.tick_world || self.tick_left == 0 || op.starts_with("time") || op.starts_with("tick") {
+            return;
+        }
+        let n = match self.ticker.as_mut() {
+            Some(r) => {
+                if r.below(6) != 0 {
+                    return;
+                }
+                [1u32, 15, 16, 17, 40, 150, 600][r.below(7) as usize]
+            }
+            None => return,
+        };
+        let n = n.min(self.tick_left);
+        self.tick_left -= n;
+        let line = format!("tick {n}");
+        let toks: Vec<&str> = line.split(' ').collect();
+        let (obs, _) = self.world.as_mut().expect("no scenario").exec(&toks);
+        self.ops += 1;
+        *self.tr.classes.entry("tick".to_string()).or_insert(0) += 1;
+        self.tr.lines.push(format!("{line} => {obs} ## class=tick"));
     }
     /// execute and record; returns the observation
     pub fn op(&mut self, op: &str, class: &str) -> String {
+        self.auto_tick(op);
         let toks: Vec<&str> = op.split(' ').collect();
         let (obs, diag) = self.world.as_mut().expect("no scenario").exec(&toks);
         self.ops += 1;
@@ -131,6 +163,7 @@ fn main() {
             let out = &args[5];
             let thorough = tier == "thorough";
             let mut run = Run::new();
+            run.ticker = Some(Rng::new(seed ^ 0x71c4_71c4));
             match prop.as_str() {
                 "C01" => gwgen::gen_c01(&mut run, seed, thorough),
                 "C02" => gwgen::gen_c02(&mut run, seed, thorough),
